@@ -74,7 +74,13 @@ class Env:
     labels = ()
 
 
-def rp_stub(frame, spacing=None, intensity_image=None):
+def rp_stub(frame, spacing=None, intensity_image=None, **extra):
+    # `extra`: arguments a changed annotator may pass on (e.g. an offset of a cropped frame).  The contract stub has
+    # no meaning for them: they are ignored and tagged; a region of a cropped frame is then a DIFFERENT uninterpreted
+    # function than the reference over the whole frame, so the obligation fails in the engine and the real
+    # regionprops decide in the replay (reproduced = violation, otherwise inconclusive - never a pass).
+    if extra:
+        cur().tag("rp_stub:extra_arguments:" + ",".join(sorted(extra)))
     if isinstance(frame, np.ndarray):
         frame = _as_sarr(frame)  # a frame that was realised at a C boundary
     if not isinstance(frame, SArr):
